@@ -113,6 +113,11 @@ static int apply(int ev, int idx) {
 	t_bidib_node_address a = {0, 0, 0};
 	for (int i = 0; i < 12; i++) bidib_send_sys_ping(a, (uint8_t) i, 0);
 	hx_quiesce();
+	/* a burst of messages that need no answer (no flow control) and together exceed the default packet capacity: how it is
+	 * cut into packets shows the packet capacity in force in THIS session (the sessions' downlink bytes are compared) */
+	{ t_bidib_node_address quietnode = {5, 0, 0};      /* a node with nothing held or outstanding, so the burst is only cut by the packet capacity */
+	  for (int i = 0; i < 12; i++) bidib_send_sys_clock(quietnode, (uint8_t) i, 0x80, 0x41, 0xC1, 0); }
+	bidib_flush(); hx_quiesce();
 	uint8_t d[2] = {1, 2}; sb_send(0, MSG_SYS_P_VERSION, d, 2); sb_send(0, MSG_NODE_NA, d, 1); vs_point(); hx_quiesce();
 	if (cur_mode == E_S_NORMAL || cur_mode == E_S_NORMAL_AF) { bidib_set_train_speed("train1", 20, "master"); bidib_switch_point("point1", "reverse"); hx_quiesce(); }
 	if (sess_open == 1) strncat(sess_spec, ev == E_ACT ? "a" : "l", sizeof sess_spec - strlen(sess_spec) - 1);
@@ -126,7 +131,8 @@ static void c16_child(const void *job, size_t n) {
 	for (int i = 0; i < len; i++) {
 		if (!apply(ev[i], i)) { if (i == len - 1) res_printf("N 1\n"); else res_infra("inapplicable event inside a history"); res_finish(); }
 		hx_emit_san_events(ENAME[ev[i]]); hx_emit_ledger_violations("C16");
-		if (sess_open == 2) { res_printf("H %d %s %llx\n", i, sess_spec, (unsigned long long) (sess_hash.a ^ sess_hash.b)); sess_open = 0; }
+		if (sess_open == 2) { res_printf("H %d %s %llx\n", i, sess_spec, (unsigned long long) (sess_hash.a ^ sess_hash.b)); sess_open = 0;
+			if (getenv("VERIF_IN_REPLAY")) res_printf("X session %s downlink so far: %zu bytes in %d writes, last 120: %s\n", sess_spec, env_out_len(), env_nwrites(), hx_hex(env_out() + (env_out_len() > 120 ? env_out_len() - 120 : 0), env_out_len() > 120 ? 120 : env_out_len())); }
 		if (res_nviol() && i < len - 1) res_infra("violation before the last event");
 	}
 	if (vs_held_count(0)) { char h[200]; vs_held_desc(0, h, sizeof h); res_violation("lock-held-after-lifecycle-call", "main thread still holds %s", h); }
